@@ -56,7 +56,18 @@ _fx.__name__ = "analyse"
 
 def build(tier, seed):
     set_tier(tier)
-    tasks = [a_task(PROP, calls.strip_paren), a_task(PROP, calls.assoc_getitem), a_task(PROP, calls.assoc_contains), a_task(PROP, calls.assoc_remove_last), a_task(PROP, _quote_split),
+    def _get_deps():
+        # calls are classified against the name tables of the used modules: those must have been correlated first (dependency order at any nesting depth)
+        from bounded import c07
+        from contracts import deps
+        c = deps.get_deps(PROP)
+        c.search_fn = c07.search
+        return c
+    _get_deps.__name__ = "get_deps"
+    def _literal_end():
+        return scanners.literal_end(PROP)
+    _literal_end.__name__ = "literal_end"
+    tasks = [a_task(PROP, _get_deps), a_task(PROP, _literal_end), a_task(PROP, calls.strip_paren), a_task(PROP, calls.assoc_getitem), a_task(PROP, calls.assoc_contains), a_task(PROP, calls.assoc_remove_last), a_task(PROP, _quote_split),
              Task(f"{PROP}.S.associate_order", PROP, "FortranContainer.__init__", lambda: calls.associate_order(PROP, lambda: __import__("bounded.c08", fromlist=["x"]).search())),
              a_task(PROP, _continuation),
              a_task(PROP, _fx),
